@@ -247,6 +247,21 @@ fn run(process_base: Instant, hs: &[Hist], r: &Run) -> Out {
             for (_, d, src, dst) in olds {
                 p.w.deliver(crate::sim::Flight { at: p.w.t, seq: 0, idx: u64::MAX, src, dst, ecn: None, data: d, injected: true });
             }
+            // the application may not have noticed: close() on a drained connection changes nothing
+            {
+                let now = p.w.now();
+                for node in [CLIENT, SERVER] {
+                    let chs: Vec<_> = p.w.nodes[node].conns.keys().copied().collect();
+                    for ch in chs {
+                        if let Some(s) = p.w.nodes[node].conns.get_mut(&ch) {
+                            if s.conn.is_drained() {
+                                s.conn.close(now, proto::VarInt::from_u32(1), bytes::Bytes::from_static(b"late"));
+                            }
+                        }
+                        p.w.settle_conn(node, ch);
+                    }
+                }
+            }
             for k in 1..=10u64 {
                 p.w.t += Duration::from_secs(k);
                 let now = p.w.now();
@@ -400,7 +415,7 @@ pub fn main(args: &Args) -> ! {
     let thorough = args.tier == Tier::Thorough;
     let dl = deadline(if thorough { 1200 } else { 45 });
     let hs = histories(thorough);
-    rep.rule = "Differential runs over a list of input histories H (fault-free baselines of several configurations/workloads incl. Retry, CID rotation, key update, NAT rebinding, migration and unroutable datagrams that draw stateless resets, plus every single-deviation history over the fate alphabet in the first datagrams): (1) H twice -> identical full trace (instant, destination, bytes of every datagram; every event; every timer firing); (2) H with every supplied Instant shifted by 1 s / 1 day / 10 years -> identical trace relative to the base; (3) for EVERY step index j of H a spurious handle_timeout(now) or an extra poll round is inserted -> identical trace; (3a) H with the timeout handler called twice / three times at EVERY timer firing before transmits are polled -> identical full trace; (3c) every NEW_TOKEN token the server emits decodes (server's own key) to an issue time equal to the supplied clock's reading at emission; (4) a timer never fires more than 16 consecutive times at one instant; (3b) script-free histories driven by a busy-polling loop (extra transmit polls every 20/50/100/1000 us of virtual time, incl. rate-limited senders) -> same events and loss counters as the event-driven run; (5) after both sides are drained (by the close timer, or early by the peer's stateless reset arriving 1 / 40 ms after the close, or right after close() before the connection was polled again) every datagram of the run is fed again and ten timeouts are delivered -> no transmit, no event, no endpoint event. Non-trivial = a run with a shift or an inserted call; distinct = distinct (history, variant) pairs.".into();
+    rep.rule = "Differential runs over a list of input histories H (fault-free baselines of several configurations/workloads incl. Retry, CID rotation, key update, NAT rebinding, migration and unroutable datagrams that draw stateless resets, plus every single-deviation history over the fate alphabet in the first datagrams): (1) H twice -> identical full trace (instant, destination, bytes of every datagram; every event; every timer firing); (2) H with every supplied Instant shifted by 1 s / 1 day / 10 years -> identical trace relative to the base; (3) for EVERY step index j of H a spurious handle_timeout(now) or an extra poll round is inserted -> identical trace; (3a) H with the timeout handler called twice / three times at EVERY timer firing before transmits are polled -> identical full trace; (3c) every NEW_TOKEN token the server emits decodes (server's own key) to an issue time equal to the supplied clock's reading at emission; (4) a timer never fires more than 16 consecutive times at one instant; (3b) script-free histories driven by a busy-polling loop (extra transmit polls every 20/50/100/1000 us of virtual time, incl. rate-limited senders) -> same events and loss counters as the event-driven run; (5) after both sides are drained (by the close timer, or early by the peer's stateless reset arriving 1 / 40 ms after the close, or right after close() before the connection was polled again) every datagram of the run is fed again, close() is called once more and ten timeouts are delivered -> no transmit, no event, no endpoint event. Non-trivial = a run with a shift or an inserted call; distinct = distinct (history, variant) pairs.".into();
     // baselines
     let (bres, _) = e3((0..hs.len()).collect::<Vec<_>>(), dl, |&i| run(pbase, &hs, &Run { h: i, shift: Duration::ZERO, extra: None, drained_part: false, busy_us: None, reset_after_us: None, timeout_calls: 1 }));
     let base: Vec<(u64, u64)> = bres.iter().map(|(_, o)| (o.trace, o.steps)).collect();
